@@ -129,6 +129,8 @@ struct Sys
     n_keys: u32,
     /// the system's entity has been spawned and carries its callback storage
     ready: bool,
+    /// trace position of the last change-detection baseline of this system (None: never sampled)
+    baseline: Option<usize>,
 }
 
 #[derive(Debug, Clone)]
@@ -239,6 +241,10 @@ pub struct Checker
     prev_tree_incident: bool,
     in_gc: bool,
     strict: bool,
+    /// system of the run that began last (change samples follow their RunBegin immediately)
+    last_begun: Option<SysUid>,
+    /// trace position of the last applied mutation of RA / RB
+    last_res_mut: [Option<usize>; 2],
 }
 
 fn key_item_kind(key: Key) -> &'static str
@@ -291,6 +297,8 @@ impl Checker
             prev_tree_incident: false,
             in_gc: false,
             strict: true,
+            last_begun: None,
+            last_res_mut: [None, None],
         }
     }
 
@@ -491,7 +499,7 @@ impl Checker
                     shape: *shape, pool: pool.is_some(), alive: true, entity_known: false, persistent: true,
                     registered: false, once: false, arc: None, runs: 0, open_runs: Vec::new(), canary_dropped: false,
                     manually_despawned: false, postponed_runs: 0, trees_with_runs: HashSet::new(),
-                    lost_by: HashSet::new(), fired_keys: 0, n_keys: 0, ready: pool.is_some(),
+                    lost_by: HashSet::new(), fired_keys: 0, n_keys: 0, ready: pool.is_some(), baseline: None,
                 });
             }
             Ev::TopBegin(_) | Ev::SettleBegin(_) => self.tree_begin(),
@@ -515,6 +523,7 @@ impl Checker
             }
             Ev::BodyEnd{ run, readings, err } => self.on_body_end(*run, readings.as_ref(), *err),
             Ev::FlushEnd{ run } => self.on_flush_end(*run),
+            Ev::ChangeSample{ changed, resample } => self.on_change_sample(*changed, *resample),
             Ev::Probe{ readings, .. } =>
             {
                 if !readings.is_empty()
@@ -744,6 +753,7 @@ impl Checker
             (Op::ResMutate(r), _) | (Op::ResTrigger(r), _) =>
             {
                 let r = *r;
+                if matches!(op, Op::ResMutate(_)) { self.last_res_mut[(r as usize).min(1)] = Some(self.pos); }
                 expected = Some(regs_for(self, &|k| *k == Key::ResourceMutation(r)));
                 kind = Some(HookKind::Resource);
                 trigger_keys.push(Key::ResourceMutation(r));
@@ -1403,6 +1413,7 @@ impl Checker
     fn on_run_begin(&mut self, run: RunId, sys: SysUid, local_n: u32, captured_n: Option<u32>, readings: Option<&Readings>, second_take: Option<bool>, anon: bool)
     {
         self.rep.runs += 1;
+        self.last_begun = Some(sys);
         let delivery = self.pending_start;
         let mut exp: Vec<Item> = Vec::new();
         match delivery.and_then(|id| self.deliveries.get(&id).cloned())
@@ -1521,6 +1532,27 @@ impl Checker
         {
             self.rep.classes.hit("C09:depth3_with_postponed");
         }
+    }
+
+    /// C13: the change-detection baseline is part of a system's private state: a run sees "changed" exactly for
+    /// what was mutated since the previous time this system (state) looked.
+    fn on_change_sample(&mut self, changed: [bool; 2], resample: bool)
+    {
+        let Some(sys) = self.last_begun else { self.internal("change sample without a run".into()); return };
+        let base = self.systems[sys as usize].baseline;
+        for r in 0..2
+        {
+            let want = match (base, self.last_res_mut[r]) { (None, _) => true, (Some(_), None) => false, (Some(b), Some(m)) => m > b };
+            if changed[r] != want
+            {
+                let k = self.systems[sys as usize].runs;
+                self.viol_sys("C13", Some(sys), format!("run {k} of system {sys}{}: change detection reports resource {r} as {}, but it was {} since this system last looked (its change-detection baseline is part of its private state)",
+                    if resample { " (at body end)" } else { "" },
+                    if changed[r] { "changed" } else { "unchanged" }, if want { "mutated" } else { "not mutated" }));
+            }
+            if want && base.is_some() && !resample { self.rep.classes.hit("C13:change_detected_across_runs"); }
+        }
+        self.systems[sys as usize].baseline = Some(self.pos);
     }
 
     fn on_body_end(&mut self, run: RunId, readings: Option<&Readings>, err: bool)
